@@ -548,6 +548,12 @@ class IndexOps:
         def fail(oracle, detail, cls_=cls):
             raise Violation(oracle, site, cls_, detail)
 
+        if P == 'C02' and m.raw and (len(m.raw) + e.h) % 2 == 1 and not (m.unit is None and isinstance(m.raw[-1], np.datetime64)):
+            # sometimes the first read after a growth call is a lookup of the newest label (caches still cold)
+            lab = m.raw[-1]
+            st0, p0 = call(obj.loc_to_iloc, lab)
+            if st0 == 'raise' or not isinstance(p0, (int, np.integer)) or int(p0) != len(m.raw) - 1:
+                fail('C02.bijection', f'first read after growth: loc_to_iloc({lab!r}) -> {p0!r}, expected {len(m.raw) - 1}')
         # observed primary views
         st, vals = call(lambda: arr_cells(obj.values))
         st2, it = call(lambda: norm_list(list(obj)))
